@@ -898,10 +898,51 @@ def run_reassign(ctx):
                     ctx.violation('reassign', case, 'after %r -> %r the item says %r (declaration %r); a fresh item says %r' % (old, new, got, text, want), KNOWN_PRED)
 
 
+def run_value_accessor(ctx):
+    """PropertyValue.value / Property.value is the value text without its comments: every component - numbers, colours,
+    functions, unresolved var() references with their fallbacks - is in it, written as in cssText.  Search only."""
+    import re
+    import cssutils
+    from harness import impl
+    VALUES = ['1px /*c*/ 2px', '1px var(gap, 0.50em) 2px', 'var(w)', 'var(x, red /*c*/ blue)', 'f(1px, /*c*/ 2em) 3%', 'rgb(1, 2, 3) /*c*/ #abc',
+              'calc(1px + 2px) /*c*/ 4', '"s" /*c*/ url(a.png)', 'var(a) var(b, 1 2) 0.5', 'x(var(y, 1px)) /*c*/', 'hsl(1, 2%, 3%) var(z, rgb(1,2,3))']
+
+    def squeeze(t):
+        return re.sub(r'\s+', ' ', re.sub(r'/\*.*?\*/', ' ', t)).replace('( ', '(').replace(' )', ')').replace(' ,', ',').strip()
+    for v in VALUES:
+        for ctxt in ('detached', 'sheet', 'sheet-with-variables', 'unresolved-pref'):
+            impl.reset()
+            case = {'family': 'value-accessor', 'value': v, 'context': ctxt}
+            ctx.case(('value-accessor', v, ctxt))
+            try:
+                if ctxt == 'detached':
+                    pv = cssutils.css.PropertyValue(v)
+                else:
+                    pre = '@variables { w: 7px; gap: 1em } ' if ctxt != 'sheet' else ''
+                    if ctxt == 'unresolved-pref':
+                        cssutils.ser.prefs.resolveVariables = False
+                    sh = cssutils.parseString(pre + 'a { x-w: %s }' % v)
+                    ps_ = sh.cssRules[-1].style.getProperties() if sh.cssRules.length else []
+                    if not ps_:
+                        continue      # not accepted as a value
+                    pv = ps_[0].propertyValue
+                a, b = squeeze(pv.value), squeeze(pv.cssText)
+            except __import__('xml.dom').dom.DOMException:
+                continue          # not a value (e.g. a var() fallback of two components)
+            except Exception as e:  # noqa
+                ctx.violation('value-accessor', case, '%s: %s' % (type(e).__name__, e), KNOWN_PRED)
+                continue
+            finally:
+                cssutils.ser.prefs.useDefaults()
+            if a != b:
+                ctx.violation('value-accessor', case, '.value %r, cssText without comments %r' % (a, b), KNOWN_PRED)
+
+
 def run(ctx):
     quick = ctx.tier == 'quick'
     rng = ctx.rng
     run_reassign(ctx)
+    run_value_accessor(ctx)
     keys, model_cases = [], []
     ctx.cov['rule'] = ('numbers: decimal literals (3 signs x integer part of 0..19 digits with/without leading zeros or absent x fraction of '
                        '0..6 digits, plus a 7..12 digit stratum; hand-picked carry/zero patterns; magnitudes to 10^18 and the 2^52/10^6 boundary) '
